@@ -196,7 +196,7 @@ func streamNonce(c *ctx) {
 			c.fail(failure{Op: "nonce", What: "cannot build encryptor", Input: fmt.Sprint(alg), Observed: err.Error(), Expected: "encryptor"})
 			continue
 		}
-		for l := 0; l <= 17; l++ {
+		for l := 0; l <= 33; l++ {
 			var eerr, derr error
 			var ct []byte
 			catch(func() { ct, eerr = e.Encrypt(make([]byte, l), []byte("pt"), nil) })
@@ -210,19 +210,71 @@ func streamNonce(c *ctx) {
 			c.nontriv(fmt.Sprintf("aead|%d|%v", alg, eerr == nil))
 		}
 	}
-	// freshness: library-chosen nonces of distinct fresh messages, real entropy
-	for _, alg := range []int{1, 10, 24} {
+	// every byte of the entropy draw reaches the nonce: two fresh messages whose draws differ in one byte get different nonces
+	// (the hypothesis of C06_fresh_nonces_distinct is that draws are distinct; a library that keeps only part of the draw repeats nonces)
+	for _, kind := range []string{"Encrypt0", "Encrypt"} {
+		for _, nsize := range sizes {
+			base := c.r.bytes(nsize)
+			chosen := func(draw []byte) []byte {
+				rand.Reader = &counterReader{next: draw}
+				defer func() { rand.Reader = saved }()
+				var nonces, aads [][]byte
+				enc := fakeEncryptor{k: key.Key{iana.KeyParameterKty: 4, iana.KeyParameterAlg: 1}, nsize: nsize, nonces: &nonces, aads: &aads}
+				if kind == "Encrypt0" {
+					m := &cose.Encrypt0Message[[]byte]{Payload: []byte("p")}
+					m.EncryptAndEncode(enc, nil)
+				} else {
+					m := &cose.EncryptMessage[[]byte]{Payload: []byte("p")}
+					m.AddRecipient(&cose.Recipient{})
+					m.EncryptAndEncode(enc, nil)
+				}
+				if len(nonces) != 1 {
+					return nil
+				}
+				return nonces[0]
+			}
+			n0 := chosen(base)
+			for i := 0; i < nsize; i++ {
+				d := append([]byte{}, base...)
+				d[i] ^= byte(1 + c.r.intn(255))
+				n1 := chosen(d)
+				c.eval()
+				if n0 == nil || n1 == nil || bytes.Equal(n0, n1) {
+					line := fmt.Sprintf("nonce-entropy|kind=%s|nsize=%d|draw1=%x|draw2=%x", kind, nsize, base, d)
+					c.fail(failure{Op: "nonce", What: "two fresh messages with different entropy draws were encrypted under the same nonce", Input: line,
+						Observed: fmt.Sprintf("nonce1=%x nonce2=%x", n0, n1), Expected: "different nonces (the draw is used at full length)", Case: line, Theorem: "C06_fresh_nonces_distinct"})
+				}
+			}
+			c.count(fmt.Sprintf("entropy-bytes %s nsize=%d", kind, nsize))
+		}
+	}
+	// freshness: library-chosen nonces of distinct fresh messages, real entropy (7-, 12- and 13-byte nonces, both kinds)
+	for fi, alg := range []int{1, 10, 24, 12, 12} {
 		e, _ := realEncryptor(alg, make([]byte, symKeySize[alg]))
 		seen := map[string]bool{}
 		cnt := c.n(4000, 200000)
+		if e.NonceSize() == 7 {
+			cnt = c.n(30000, 400000)
+		}
 		rep := 0
 		for j := 0; j < cnt; j++ {
-			m := &cose.Encrypt0Message[[]byte]{Payload: []byte("p")}
-			if err := m.Encrypt(e, nil); err != nil {
-				c.fail(failure{Op: "nonce", What: "fresh Encrypt failed", Input: fmt.Sprint(alg), Observed: err.Error(), Expected: "ok"})
+			var un cose.Headers
+			var eerr error
+			if fi%2 == 0 {
+				m := &cose.Encrypt0Message[[]byte]{Payload: []byte("p")}
+				eerr = m.Encrypt(e, nil)
+				un = m.Unprotected
+			} else {
+				m := &cose.EncryptMessage[[]byte]{Payload: []byte("p")}
+				m.AddRecipient(&cose.Recipient{})
+				eerr = m.Encrypt(e, nil)
+				un = m.Unprotected
+			}
+			if eerr != nil {
+				c.fail(failure{Op: "nonce", What: "fresh Encrypt failed", Input: fmt.Sprint(alg), Observed: eerr.Error(), Expected: "ok"})
 				break
 			}
-			iv, _ := m.Unprotected.GetBytes(iana.HeaderParameterIV)
+			iv, _ := un.GetBytes(iana.HeaderParameterIV)
 			if len(iv) != e.NonceSize() {
 				c.fail(failure{Op: "nonce", What: "library nonce has wrong length", Input: fmt.Sprint(alg), Observed: fmt.Sprint(len(iv)), Expected: fmt.Sprint(e.NonceSize()), Theorem: "C06_nonce_len"})
 				break
